@@ -88,3 +88,67 @@ Section Scan.
       apply IH in H as (H1 & H2 & H3). rewrite <- app_assoc in H1. repeat split; assumption.
   Qed.
 End Scan.
+
+(* ---- canonical (segmentation-free) view of a scan result ------------------------------------- *)
+Definition NE (p : unreader) : Prop := Forall (fun c => c <> []) p.
+Lemma NE_tl c p : NE (c :: p) -> NE p. Proof. intros H; inversion H; assumption. Qed.
+Lemma NE_unread d p : NE p -> NE (u_unread d p).
+Proof. intros H. destruct d; [exact H|]. constructor; [discriminate|exact H]. Qed.
+Lemma NE_nil_abs p : NE p -> u_abs p = [] -> p = [].
+Proof. destruct p as [|c t]; [reflexivity|]. intros H E. inversion H; subst. cbn in E. destruct c; [congruence|discriminate]. Qed.
+
+Section Canon.
+  Variable find : bytes -> option nat.
+  Variable over : nat -> bool.
+  Variable width : nat.        (* delimiter width for the late-find bound *)
+  Variable wb : nat.           (* bytes of the delimiter guaranteed to be inside the buffer, wb <= width *)
+  Variable post : nat -> bool.
+  Hypothesis find_stable : forall a b i, find a = Some i -> find (a ++ b) = Some i.
+  Hypothesis find_late : forall a b i, find a = None -> find (a ++ b) = Some i -> length a < i + width.
+  Hypothesis find_bound : forall a i, find a = Some i -> i + wb <= length a.
+  Hypothesis over_mono : forall n m, n <= m -> over n = true -> over m = true.
+  Hypothesis early_fire : forall n i, n < i + width -> over n = true -> post i = true.
+
+  (* what the callers use of a successful scan: the bytes up to and including the delimiter, and
+     everything after it (buffered or still to come) *)
+  Inductive cut := CFound (i : nat) (pre : bytes) (rest : bytes) | COver | CEof.
+  Definition canon (r : scan_res) : cut :=
+    match r with
+    | SFound i d p' => if post i then COver else CFound i (firstn (i + wb) d) (skipn (i + wb) d ++ concat p')
+    | SOver => COver
+    | SEof _ => CEof
+    end.
+  Definition abs_cut (s : bytes) : cut :=
+    match find s with
+    | Some i => if post i then COver else CFound i (firstn (i + wb) s) (skipn (i + wb) s)
+    | None => if over (length s) then COver else CEof
+    end.
+
+  Theorem scan_canon : forall p data, canon (scan find over data p) = abs_cut (data ++ concat p).
+  Proof.
+    intros p data.
+    pose proof (scan_refines find over width post find_stable find_late over_mono early_fire p data) as Hr.
+    destruct (scan find over data p) as [i d p'| |d] eqn:Es.
+    - destruct (scan_found_abs find over _ _ _ _ _ Es) as [Hd Hf].
+      cbn [canon res_abs] in *. unfold abs_cut, abs_scan in *. rewrite <- Hd in *.
+      rewrite (find_stable _ (concat p') _ Hf) in *.
+      destruct (post i); [reflexivity|].
+      pose proof (find_bound _ _ Hf) as Hb.
+      rewrite firstn_app, skipn_app.
+      replace (i + wb - length d) with 0 by lia. cbn [firstn skipn]. rewrite app_nil_r. reflexivity.
+    - cbn [canon res_abs] in *. unfold abs_cut, abs_scan in *.
+      destruct (find (data ++ concat p)); [destruct (post n); [reflexivity|discriminate]|].
+      destruct (over _); [reflexivity|discriminate].
+    - cbn [canon res_abs] in *. unfold abs_cut, abs_scan in *.
+      destruct (find (data ++ concat p)); [destruct (post n); discriminate|].
+      destruct (over _); [discriminate|reflexivity].
+  Qed.
+
+  Lemma scan_found_NE : forall p data i d p', NE p -> scan find over data p = SFound i d p' -> NE p'.
+  Proof.
+    induction p as [|c p IH]; intros data i d p' Hne H; cbn [scan] in H.
+    - destruct (find data); [injection H as <- <- <-; exact Hne|]. destruct (over _); discriminate.
+    - destruct (find data); [injection H as <- <- <-; exact Hne|]. destruct (over _); [discriminate|].
+      eapply IH; [eapply NE_tl; exact Hne|exact H].
+  Qed.
+End Canon.
